@@ -42,6 +42,11 @@ VARIANTS = {
         'lib/build.bfg': "export(lib=static_library('l', find_files('*.c')))\n",
         'options.bfg': "argument('name', default='dflt')\n",
     },
+    'toolchain-file': {
+        'build.bfg': "srcs = find_files('src/*.c')\nexecutable('prog', srcs)\n",
+        'tc.bfg': "compile_options(['-DTC=1'], 'c')\nlink_options(['-Wl,-tc'])\n"
+                  "environ['TCVAR'] = 'one'\n",
+    },
 }
 BASE_FILES = {'main.c': 'int main(){}\n', 'src/a.c': 'int a;\n', 'src/b.c': 'int b;\n',
               'lib/l1.c': 'int l1;\n', 'lib/l.h': '#define L\n', 'lib/deep/l2.c': 'int l2;\n',
@@ -145,6 +150,28 @@ def op_add_excluded(src, n):
     w(src, 'lib/old/o%d.c' % n, 'int o;\n')
 
 
+def op_toolchain_drop(src, n):
+    """the toolchain file stops setting something it used to set"""
+    p = os.path.join(src, 'tc.bfg')
+    if not os.path.exists(p):
+        return 'noop'
+    lines = open(p).read().splitlines(True)
+    if len(lines) <= 1:
+        return 'noop'
+    with open(p, 'w') as f:
+        f.writelines(lines[1:])
+
+
+def op_toolchain_edit(src, n):
+    """a changed value, and a variable derived from its own current value"""
+    p = os.path.join(src, 'tc.bfg')
+    if not os.path.exists(p):
+        return 'noop'
+    with open(p, 'a') as f:
+        f.write("compile_options(['-DTC_EDIT=%d'], 'c')\n"
+                "environ['CPPFLAGS'] = environ.get('CPPFLAGS', '') + ' -DAPPENDED%d'\n" % (n, n))
+
+
 def op_add_empty_dir(src, n):
     """a new directory below a searched one that (so far) holds nothing that matches"""
     os.makedirs(os.path.join(src, 'lib', 'fresh%d' % n), exist_ok=True)
@@ -169,7 +196,8 @@ OPS = [('add-matching', op_add_match), ('add-nonmatching', op_add_nomatch), ('ad
        ('edit-build.bfg', op_edit_script), ('touch-build.bfg', op_touch_script),
        ('edit-options/submodule', op_edit_aux), ('add-excluded', op_add_excluded),
        ('drop-find_files', op_drop_find), ('edit-new-submodule', op_edit_new_submodule),
-       ('add-empty-dir', op_add_empty_dir), ('fill-new-dirs', op_fill_new_dirs)]
+       ('add-empty-dir', op_add_empty_dir), ('fill-new-dirs', op_fill_new_dirs),
+       ('toolchain-drop-line', op_toolchain_drop), ('toolchain-edit', op_toolchain_edit)]
 OPD = dict(OPS)
 
 
@@ -245,8 +273,11 @@ def make_node(root, variant, backend):
         f.write('#!/bin/sh\necho "$*" >> %s\nexec %s %s "$@"\n'
                 % (bfglog, os.path.join(bfg.VENV_BIN, 'python'), bfg.BFG_CLI))
     os.chmod(wrapper, os.stat(wrapper).st_mode | stat.S_IEXEC)
+    args = []
+    if 'tc.bfg' in files:
+        args = ['--toolchain', os.path.join(root, 'p', 'src', 'tc.bfg')]
     pr = proj.Proj(os.path.join(root, 'p'), backend, files, files['build.bfg'],
-                   extra_env={'BFG9000': wrapper})
+                   extra_env={'BFG9000': wrapper}, args=args)
     return Node(pr, bfglog)
 
 
@@ -339,7 +370,7 @@ def _explore(arg):
 def run(ctx):
     depth = 3 if ctx.thorough else 2
     variants = list(VARIANTS) if ctx.thorough else ['one-pattern', 'patterns-extra-exclude', 'directories',
-                                                    'submodule-options-pkgconfig']
+                                                    'submodule-options-pkgconfig', 'toolchain-file']
     shards = []
     for v in variants:
         for b in ('make', 'ninja'):
